@@ -105,8 +105,19 @@ def cmd_worker(prop, inst, out, seed, tier):
             if kind == 'exc':
                 e = val
                 if isinstance(e, (core.NotEncodable, core.Realised)):
+                    # the code left the encodable fragment on this path (e.g. it now forces floats). Before giving up,
+                    # run this instance concretely on its default inputs, unpatched: a claim failing there is a
+                    # reproduced violation; otherwise the path stays a harness error (never a pass)
+                    tbk = traceback.extract_tb(e.__traceback__)
+                    wh = [f for f in tbk if '/pyPRISM/' in f.filename]
+                    site = '%s:%d' % (os.path.relpath(wh[-1].filename, REPO), wh[-1].lineno) if wh else 'harness'
+                    p = E._replay('not-encodable@' + site, {})
+                    if p:
+                        E.results.append(dict(key=E.last_replay_key, verdict='violation', s=0, path='', canary=False, replay=p,
+                                              detail='symbolic execution left the encodable fragment (%s); the concrete run on default inputs fails' % e))
+                        continue
                     status = 'harness-error'; err = '%s: %s' % (type(e).__name__, e)
-                    E.results.append(dict(key='encodable', verdict='not-encodable', s=0, path='', canary=False, detail=err))
+                    E.results.append(dict(key='encodable', verdict='not-encodable', s=0, path='', canary=False, detail=err + ' @' + site))
                     continue
                 # an exception escaping the harness on a feasible path: candidate violation
                 tb = traceback.extract_tb(e.__traceback__)
@@ -300,6 +311,8 @@ def cmd_driver(prop, tier, only, jobs, seed):
                     discharged += 1      # decided (as a listed finding), not counted as held
                 else:
                     violations.append((full, o.get('replay')))
+            elif v == 'not-searched':
+                discharged += 0      # listed only: the instance already reported replayed violations
             elif v == 'unknown':
                 inconclusive += 1
                 errors.append(('inconclusive', name, 'obligation %s: solver unknown' % o['key']))
